@@ -34,6 +34,7 @@ import (
 	"github.com/thanos-io/thanos/pkg/store/storepb"
 	storetestutil "github.com/thanos-io/thanos/pkg/store/storepb/testutil"
 	"github.com/thanos-io/thanos/zzverif/common"
+	"github.com/thanos-io/thanos/zzverif/queryutil"
 )
 
 // ---- input -----------------------------------------------------------------
@@ -118,7 +119,60 @@ func facts(repo string, w io.Writer) error {
 	fmt.Fprintln(w, "(* pkg/dedup/iter.go dedupSeriesIterator.Next: const initialPenalty; penalty = penaltyFactor * (t - lastT) *)")
 	fmt.Fprintf(w, "Definition initialPenalty : Z := %s.\n", val)
 	fmt.Fprintln(w, "Definition penaltyFactor : Z := 2.")
-	return nil
+
+	// statement skeletons of the functions the model transcribes
+	emit := func(file *common.SrcFile, fn, name string, keep func(queryutil.Ev) bool) error {
+		evs, err := queryutil.Events(file, fn, []string{"level.", "errors.", "tracing.", "annotations."})
+		if err != nil {
+			return err
+		}
+		if keep != nil {
+			var f []queryutil.Ev
+			for _, e := range evs {
+				if keep(e) {
+					f = append(f, e)
+				}
+			}
+			evs = f
+		}
+		queryutil.Emit(w, name, evs)
+		return nil
+	}
+	fmt.Fprintln(w, "(* pkg/dedup/iter.go *)")
+	for _, x := range [][2]string{
+		{"overlapSplitSet.Next", "ev_overlap_next"},
+		{"dedupSeriesIterator.Next", "ev_dedup_next"},
+		{"dedupSeriesIterator.Seek", "ev_dedup_seek"},
+		{"boundedSeriesIterator.Next", "ev_bounded_next"},
+		{"boundedSeriesIterator.Seek", "ev_bounded_seek"},
+		{"dedupSeriesSet.next", "ev_dedupset_next"},
+	} {
+		if err := emit(s, x[0], x[1], nil); err != nil {
+			return err
+		}
+	}
+	q, err := common.ParseSrc(repo, "pkg/query/iter.go")
+	if err != nil {
+		return err
+	}
+	fmt.Fprintln(w, "(* pkg/query/iter.go *)")
+	for _, x := range [][2]string{
+		{"chunkSeriesIterator.Next", "ev_csi_next"},
+		{"chunkSeriesIterator.Seek", "ev_csi_seek"},
+	} {
+		if err := emit(q, x[0], x[1], nil); err != nil {
+			return err
+		}
+	}
+	qq, err := common.ParseSrc(repo, "pkg/query/querier.go")
+	if err != nil {
+		return err
+	}
+	fmt.Fprintln(w, "(* pkg/query/querier.go selectFn: only the dedup-related steps *)")
+	return emit(qq, "querier.selectFn", "ev_selectfn", func(e queryutil.Ev) bool {
+		return strings.Contains(e.Text, "dedup") || strings.Contains(e.Text, "Dedup") || strings.Contains(e.Text, "NewPromSeriesSet") ||
+			strings.Contains(e.Text, "WithoutReplicaLabels") || strings.Contains(e.Text, "newStoreSeriesSet")
+	})
 }
 
 // ---- fake stores ---------------------------------------------------------------
@@ -555,7 +609,7 @@ func gen(r *rand.Rand, tier string, n int) []any {
 	var out []any
 	maxN := 24
 	if tier == "thorough" {
-		maxN = 120
+		maxN = 60
 	}
 	for i := 0; i < n; i++ {
 		in := input{Dedup: r.Intn(4) > 0, ReplicaLabel: common.Pick(r, "replica", "a_rep", "zz"), NStores: 1 + r.Intn(4)}
@@ -624,6 +678,6 @@ func gen(r *rand.Rand, tier string, n int) []any {
 }
 
 func main() {
-	common.Main(common.Prop{ID: "C04", Facts: facts, Gen: gen, Run: run, QuickN: 300, ThoroughN: 3000,
+	common.Main(common.Prop{ID: "C04", Facts: facts, Gen: gen, Run: run, QuickN: 300, ThoroughN: 900,
 		Preamble: "Open Scope Z_scope.\n"})
 }
